@@ -955,6 +955,7 @@ func runL1History(g *gen, mode string, nops int, hstats map[string]int, faulty, 
 	key := func() sval { return keys[g.r.Intn(len(keys))] }
 	var delTimes []int64
 	ending := false
+	endAfterScript := false // the history is the script, then the two final readers
 	// scripted openings: several writers that never saw each other (k unmerged current versions)
 	var script []*kop
 	if g.r.Intn(4) == 0 {
@@ -977,6 +978,31 @@ func runL1History(g *gen, mode string, nops int, hstats map[string]int, faulty, 
 		}
 		nextH += k
 		hstats["script_fanin"]++
+	}
+	if !faulty && !crashy && mode == "rows" && len(script) == 0 && g.r.Intn(5) == 0 {
+		// regrouping: A and B write one key at different times (B, later, does not assign the column);
+		// a third handle merges both and commits M (its entry carries B's time and A's cell); B goes
+		// on to B'.  The final readers merge {M, B'} in two orders and must agree: the entries of M
+		// and B' for that key have EQUAL times and different contents.
+		hA, hB, hM := nextH, nextH+1, nextH+2
+		nextH += 3
+		k0 := keys[0]
+		script = append(script,
+			&kop{kind: "open", h: hA, when: baseTime - 5000000000, seed: g.r.Int63n(1000000)},
+			&kop{kind: "open", h: hB, when: baseTime - 4000000000, seed: g.r.Int63n(1000000)},
+			&kop{kind: "set", h: hA, key: k0, when: baseTime + 10, row: mrow{cols: []mcol{{present: true, v: g.smallVal()}}}},
+			&kop{kind: "set", h: hB, key: k0, when: baseTime + 20, row: mrow{cols: []mcol{{present: false}}}},
+			&kop{kind: "commit", h: hA}, &kop{kind: "commit", h: hB},
+			&kop{kind: "open", h: hM, when: baseTime - 3000000000, seed: g.r.Int63n(1000000)},
+			&kop{kind: "commit", h: hM},
+			&kop{kind: "set", h: hB, key: keys[len(keys)-1], when: baseTime + 30, row: mrow{cols: []mcol{{present: true, v: g.smallVal()}}}},
+			&kop{kind: "commit", h: hB},
+			&kop{kind: "open", h: nextH, ro: true, when: baseTime - 1000000000, seed: g.r.Int63n(1000000)}, &kop{kind: "dump", h: nextH},
+			&kop{kind: "open", h: nextH + 1, ro: true, when: baseTime - 1000000000, seed: g.r.Int63n(1000000)}, &kop{kind: "dump", h: nextH + 1})
+		nextH += 2
+		hstats["script_regroup"]++
+		ending = true
+		endAfterScript = true
 	}
 	if !faulty && !crashy && mode == "rows" && len(script) == 0 && g.r.Intn(5) == 0 {
 		// the cutoff boundary: a row deleted exactly AT the cutoff keeps its delete marker, a cutoff
@@ -1262,7 +1288,7 @@ func runL1History(g *gen, mode string, nops int, hstats map[string]int, faulty, 
 			live = append(live, op.h2)
 		}
 	}
-	if !faulty && !crashy && !ending {
+	if !faulty && !crashy && (!ending || endAfterScript) {
 		// two fresh read-only readers merge whatever is under current/ in two different orders:
 		// they must see the same entries (C01)
 		w.exec(&kop{kind: "mark"}, hstats)
